@@ -218,15 +218,18 @@ def gen_rows(rng, x, nr, n_rows, frac, charge):
         signed = charge and len(rows) == 0
         lo = -2 if signed else 0
         c = [Fraction(rng.randint(lo, 3)) if rng.random() < 0.6 else Fraction(0) for _ in range(n)]
-        if frac and rng.random() < 0.4:
-            j = rng.randrange(n)
-            c[j] = c[j] + Fraction(1, rng.choice([2, 4]))
+        if frac and rng.random() < 0.5:
+            for _ in range(rng.randint(1, 2)):        # halves, thirds, fifths, sevenths ..., mixed denominators in one row
+                j = rng.randrange(n)
+                c[j] = c[j] + Fraction(rng.randint(1, 6), rng.choice([2, 3, 4, 5, 6, 7, 10]))
         j = rng.randrange(n)                          # the species whose amount is solved for
         c[j] = Fraction(0)
         tr = sum(c[i] * x[i] for i in range(nr))
         tp = sum(c[i] * x[i] for i in range(nr, n))
         need = (tp - tr) if j < nr else (tr - tp)     # c_j * x_j must equal this
         v = need / x[j]
+        # non-dyadic amounts (7/3, 2/5 ...) are generated since fix c82b474 (the ILP gets integer rows); before it mode None
+        # refused such balanceable reactions (notes, finding 7)
         if not frac and v.denominator != 1:
             c = [ci * x[j] for ci in c]
             v = v * x[j]
@@ -259,7 +262,7 @@ def gen_planted(rng, tier, want_nullity=1, names=None, nr=None, large=False):
                                       rng.randint(max(2, want_nullity + 1), 5 if tier == 'quick' else 6))
         nr = nr if names else rng.randint(1, n - 1)
         x = coprime_pos(rng, n, rng.choice([2, 3, 4, 6]))
-        frac = rng.random() < 0.25
+        frac = rng.random() < 0.35
         charge = rng.random() < 0.4
         n_rows = (n - want_nullity) + rng.randint(0, 2)
         rows = gen_rows(rng, x, nr, n_rows, frac, charge)
@@ -392,6 +395,10 @@ class C02(Property):
         'mode True never checks the residual: balance of a symbolic / mode-True answer rests on linsolve and is validated per instance (identically, by sympy expansion, and at sample points by the Lean checker)',
         'single-ray-ness of generated instances rests on the exact Fraction rank computation in tools/harness/c02.py',
         'sympy\'s gcd of rational numbers is modelled as gcd(numerators)/lcm(denominators) (QQ.gcd), gcd_list with its early exit; tied by the injected-candidate correspondence',
+        'compositions are driven as exact Fractions (any denominators: halves, thirds, fifths, sevenths, mixed) or ints; Python-float amounts '
+        'that are not dyadic are NOT generated: on /repo `nsimplify(A)` leaves a float Matrix unchanged and multi-key float systems are refused in all modes (reported, notes finding 9)',
+        'large instances (11-16 species) are generated single-ray only: chempy calls CBC without a time limit and 11+ species two-ray ILPs can run '
+        'for minutes - a performance matter outside the statement of C02',
         'species names are distinct within each side (a name repeated on one side collapses in the returned dict; outside the property\'s quantifier over sets)',
     )
     clauses_without_theorem = (
@@ -541,8 +548,9 @@ class C02(Property):
             rot = [0.1, 0.45, 0.6, 0.7, 0.9, 0.2, 0.5, 0.75]
             r = rot[(it // 2) % len(rot)] if it % 2 == 0 else rng.random()
             it += 1
+            large = it % 7 == 3          # every 7th draw: 11-16 species (two-digit column indices), 10+ composition keys
             if r < 0.40:
-                inst, x = gen_planted(rng, tier)
+                inst, x = gen_planted(rng, tier, large=large)
                 inst = decorate(rng, inst)
                 x = reorder(inst, x)
                 all_modes(inst, 'planted', x=x)
@@ -550,7 +558,7 @@ class C02(Property):
                 if rng.random() < 0.5:
                     injections(inst, x)
             elif r < 0.55:
-                inst, x = gen_planted(rng, tier)
+                inst, x = gen_planted(rng, tier, large=large)
                 mv = move_species(rng, inst, x)
                 if mv is None:
                     continue
@@ -570,6 +578,7 @@ class C02(Property):
                 all_modes(inst2, 'full-rank')
                 add({'op': 'setup', 'kind': 'full-rank', 'inst': inst2})
             elif r < 0.85:
+                # never large: CBC (called by chempy without a time limit) can run for minutes on 11+ species two-ray instances
                 inst, x = gen_planted(rng, tier, want_nullity=2)
                 if sum(x) > 14:
                     continue
@@ -583,7 +592,7 @@ class C02(Property):
                          'params': [rat_json(Fraction(rng.randint(1, 9), rng.randint(1, 4))) for _ in range(4)],
                          'perturb': rng.random() < 0.3})
             else:
-                inst, x = gen_planted(rng, tier, want_nullity=rng.choice([1, 1, 2]))
+                inst, x = gen_planted(rng, tier, want_nullity=1 if large else rng.choice([1, 1, 2]), large=large)
                 r0, p0 = inst['reactants'], inst['products']
                 dups = rng.sample(r0 + p0, rng.randint(1, min(2, len(r0) + len(p0))))
                 r1 = r0 + [d for d in dups if d not in r0]
@@ -662,7 +671,7 @@ class C02(Property):
             elif c['variant'] == 'planted':
                 x = list(c.get('x') or x)
             A = out['A'] if out['A'] is not None else signed_matrix(inst)
-            if sum(x) > 24:
+            if sum(x) > 24 or len(x) > 8:
                 return None
             return {'op': 'minimal', 'A': [[rat_json(e) for e in r] for r in A], 'x': x}
         if op == 'balanced_inst':
@@ -748,6 +757,14 @@ class C02(Property):
         keys = inst_keys(inst)
         mode = c['mode']
         out = self.real(inst, mode, nocache=nocache)
+        if mode == 'None' and kind == 'planted' and out['ilp'] is not None:
+            # the ILP helper's list is consumed POSITIONALLY (entry i = column i of A = i-th species): on a single ray the
+            # minimal positive integer solution is the planted vector itself, so the helper must return it in column order
+            ilp = [Fraction(v).limit_denominator(10**6) if v is not None else None for v in out['ilp']]
+            k = ilp[0] / c['x'][0] if ilp and ilp[0] is not None else None
+            if k is None or k < 1 or k.denominator != 1 or ilp != [k * v for v in c['x']]:
+                return ('_solve_balancing_ilp_pulp returned %s for the %d columns of A; every positive integer solution is a multiple '
+                        'of %s in column order' % ([str(v) for v in ilp], len(c['x']), c['x']))
         if out['res'] is None:
             e = out['exc']
             if not isinstance(e, ValueError):
@@ -770,7 +787,7 @@ class C02(Property):
             return 'two-ray instance accepted in mode False: %s' % vals
         if mode == 'None':
             x = [int(v) for v in vals]
-            if sum(x) <= 24 and has_smaller(signed_matrix(inst), x):
+            if sum(x) <= 24 and len(x) <= 8 and has_smaller(signed_matrix(inst), x):
                 return 'mode None returned %s (sum %d) but a positive balancing vector with smaller sum exists' % (x, sum(x))
         return None
 
